@@ -2211,6 +2211,10 @@ func ConcreteNextHopProto(e *aft.Afts_NextHop) (*aftpb.Afts_NextHopKey, error) {
 	}, nhproto); err != nil {
 		return nil, fmt.Errorf("cannot marshal next-hop index %d, %v", e.GetIndex(), err)
 	}
+	// protomap does not map boolean wrapper fields, so populate them explicitly.
+	if e.PopTopLabel != nil {
+		nhproto.PopTopLabel = &wpb.BoolValue{Value: e.GetPopTopLabel()}
+	}
 	return &aftpb.Afts_NextHopKey{
 		Index:   *e.Index,
 		NextHop: nhproto,
